@@ -48,34 +48,15 @@ func (tc *c01H2BodyCase) human() string {
 }
 
 func c01GenH2Body(r *rand.Rand, i int) *c01H2BodyCase {
-	tc := &c01H2BodyCase{ga: 1 + r.Intn(250), gb: r.Intn(251)}
-	tc.n = verifh.Pick(r, []int{0, 1, 2, 100, 4095, 4096, 4097, 16383, 16384, 16385, 32768, 65535, 65536, 65537, 100 << 10})
-	if r.Intn(3) == 0 {
-		tc.n = r.Intn(70000)
-	}
+	// the body reader and the declared length come from the ONE generator shared by the three body
+	// lanes (verifh.C01GenReaderScript / C01GenDeclared)
+	sc := verifh.C01GenReaderScript(r, []int{0, 1, 2, 100, 4095, 4096, 4097, 16383, 16384, 16385, 32768, 65535, 65536, 65537, 100 << 10}, 70000,
+		[]int{512, 4096, 16384, 40000, 1 << 20})
 	if verifh.Thorough() && i%50 == 0 {
-		tc.n = 1<<20 + r.Intn(3) - 1
+		sc.N = 1<<20 + r.Intn(3) - 1
 	}
-	for k, m := 0, r.Intn(7); k < m; k++ {
-		tc.sizes = append(tc.sizes, verifh.Pick(r, []int{0, 1, 7, 512, 4096, 16384, 40000, 1 << 20}))
-	}
-	tc.ending = verifh.Pick(r, []string{"eof", "eof", "eof", "eofl", "eofl", "err", "errl"})
-	tc.cl = -1
-	switch r.Intn(20) {
-	case 0, 1, 2, 3, 4, 5, 6:
-		if tc.n > 0 {
-			tc.cl = int64(tc.n)
-		}
-	case 7, 8, 9: // the reader yields fewer bytes than declared
-		tc.cl = int64(tc.n + verifh.Pick(r, []int{1, 2, 10, 1000, 20000}))
-	case 10, 11, 12: // the reader yields more bytes than declared
-		if tc.n >= 2 {
-			tc.cl = int64(tc.n - verifh.Pick(r, []int{1, 1, 2, tc.n / 2, tc.n - 1}))
-			if tc.cl < 1 {
-				tc.cl = 1
-			}
-		}
-	}
+	tc := &c01H2BodyCase{n: sc.N, ga: sc.Ga, gb: sc.Gb, sizes: sc.Sizes, ending: sc.Ending}
+	tc.cl, _ = verifh.C01GenDeclared(r, tc.n)
 	tc.trailers = verifh.Pick(r, []int{0, 0, 0, 0, 0, 0, 1, 1, 2})
 	tc.w0 = verifh.Pick(r, []uint32{0, 1, 100, 1000, 16383, 16384, 16385, 65535, 65535, 65536, 1 << 20, 1 << 30})
 	tc.connExtra = verifh.Pick(r, []uint32{0, 0, 1 << 20, 1 << 30})
